@@ -305,6 +305,35 @@ def c10h(ctx, tu):
     return n
 
 
+def c10j(ctx, tu):
+    """Building a matcher from NAMED operands must leave those operands intact: the combinators and factories take
+    forwarding references, and an operand that arrives as an lvalue (parameter type `T &` after reference collapsing)
+    must be copied - never handed to std::move, which would gut the caller's matcher (its stored value becomes the
+    moved-from one, so eq(v) no longer accepts exactly v)."""
+    FACT = ("trompeloeil::operator!", "trompeloeil::operator*", "trompeloeil::any_of", "trompeloeil::all_of",
+            "trompeloeil::none_of", "trompeloeil::make_matcher", "trompeloeil::eq", "trompeloeil::ne", "trompeloeil::lt",
+            "trompeloeil::le", "trompeloeil::gt", "trompeloeil::ge")
+    n = 0
+    for fn in tu.fns.values():
+        if not fn.has_body or not fn.is_lib or fn.qe not in FACT:
+            continue
+        lv = [i for i, p in enumerate(fn.rec.get("params") or ()) if p["t"].rstrip().endswith("&") and
+              not p["t"].rstrip().endswith("&&")]
+        if not lv:
+            continue
+        n += 1
+        moved = []
+        for b, e in fn.events():
+            if e["e"] == "call" and erase(e.get("q", "")) == "std::move":
+                a = lib.strip_casts((e.get("args") or [None])[0])
+                if isinstance(a, list) and a[:1] == ["param"] and a[1] in lv:
+                    moved.append(fn.rec["params"][a[1]]["n"])
+        ctx.ob("C10.j", fn.qe, not moved, pattern=fn.pat, unit=tu.name, inst=fn.q,
+               detail="" if not moved else "%s moves from its lvalue operand `%s`: the caller's matcher is left with a "
+               "moved-from value and no longer accepts what it accepted" % (fn.qe, moved[0]))
+    return n
+
+
 IDENTITY_WITNESS = r'''
 #include <trompeloeil.hpp>
 #include <string>
@@ -373,6 +402,10 @@ def run(ctx):
         c10f(ctx, tu)
         c10g(ctx, tu)
         c10h(ctx, tu)
+        nj = c10j(ctx, tu)
+        if tu.name.startswith("match") and nj < 4:
+            ctx.ob("C10.j", "combinators with lvalue operands", None, unit=tu.name,
+                   detail="only %d instantiation(s) with an lvalue operand in %s" % (nj, tu.name))
         units.append({"unit": tu.name, "functions": len(tu.fns)})
     c10i(ctx)
     ctx.floor("C10.a comparison functor instantiations", total, 7)
